@@ -30,6 +30,15 @@ def sumRows (m : Mat) : List Rat := m.rows.map fun r => r.foldr (· + ·) 0
 def col (m : Mat) (j : Nat) : Option (List Rat) :=
   if j < m.ncols then some (m.rows.map fun r => r.getD j 0) else none
 
+/-- `M - v.reshape(1, -1)`: the row vector `v` subtracted from every row. numpy broadcasts a vector of length `ncols` or of length 1, and
+    a ONE-column `M` against a vector of any length (the result then has `len(v)` columns - none for an empty `v`); any other
+    combination is a shape error (`none`) -/
+def subRow (m : Mat) (v : List Rat) : Option Mat :=
+  if v.length = m.ncols then some { ncols := m.ncols, rows := m.rows.map fun r => List.zipWith (· - ·) r v }
+  else if v.length = 1 then some { ncols := m.ncols, rows := m.rows.map fun r => r.map fun a => a - v.headD 0 }
+  else if m.ncols = 1 then some { ncols := v.length, rows := m.rows.map fun r => v.map fun b => r.headD 0 - b }
+  else none
+
 /-- `np.prod(M, axis=-1)` -/
 def prodRows (m : Mat) : List Rat := m.rows.map fun r => r.foldr (· * ·) 1
 
